@@ -158,6 +158,10 @@ OPTIONS = [
     ("LinearElastic", "strain measure=green lagrange", "finite", "strain", 2),
     ("J2Plastic", "kinematics=small deformations", "linear", "strain", 3),
     ("J2Plastic", "kinematics=default", "default", "strain", 5),
+    # rate-sensitive J2 (power-law kinetic potential), rest state only: the potential must vanish without plastic flow for
+    # every time step (a seeded change that left a constant ~dt in the elastic branch went undetected)
+    ("J2Plastic", "kinematics=small deformations;rate", "linear", "strain", 3),
+    ("J2Plastic", "kinematics=large deformations;rate", "default", "strain", 6),
     ("PhaseFieldThreshold", "kinematics=small deformations", "linear", "strain", 1),
     ("PhaseFieldThreshold", "kinematics=default", "default", "strain", 2),
     ("LinearElastic", "strain measure=linear", "linear", "strain", 1),
@@ -212,8 +216,10 @@ class Model:
     """energy(H, s, dt, p) / update(H, s, dt, p) call the library; p is a flat vector of material constants."""
 
     def __init__(self, model, opt, law="linear", rate=False):
-        self.model, self.opt, self.law, self.rate = model, opt, law, rate
         self.name = option_name(model, opt)
+        if opt.endswith(";rate"):
+            opt, rate = opt[:-len(";rate")], True
+        self.model, self.opt, self.law, self.rate = model, opt, law, rate
         self.has_state = model in ("J2Plastic", "HyperViscoelastic", "MultiBranchHyperViscoelastic")
         self.eigen_based = not (model in ("Neohookean", "Gent") or opt in ("strain measure=linear", "strain measure=default",
                                                                           "strain measure=green lagrange",
@@ -307,6 +313,8 @@ class Model:
         if m == "Gent":
             return onp.array([kap, mu, (50.0, 3.0, 200.0)[i]]), 1.0, kap + mu
         if m == "J2Plastic":
+            if self.rate:
+                return onp.array([E, nu, 10.0 * E, 0.1 * E, 0.0, 0.1 * E, 2.0, 0.1]), (1e-3, 1.0, 50.0)[i], kap + mu
             return onp.array([E, nu, 10.0 * E, 0.1 * E, 0.0, 0.0, 0.0, 0.0]), 1.0, kap + mu
         f = (1.0, 5.0, 0.1)[i]
         tau = (1.0, 1e-2, 1e3)[i]
